@@ -21,7 +21,7 @@ Norm(cfg, i) == [raises |-> "no", wild |-> FALSE, doc |-> i.doc,
                  ret |-> NormR(cfg, i.ret)]
 
 \* ---- named deviations of the as-built code ------------------------------------------------------------
-Devs == {"numpydoc_embedded_unparsable",       \* wild : class/pydantic/function with a NumPy docstring: descriptions (and docstring types) are lost
+Devs == {"numpydoc_embedded_unparsable",       \* wild : class/pydantic/function with a NumPy docstring AND a return entry: the return section is misread
          "google_return_mangled",              \* wild : class/pydantic/function with a Google docstring and a return entry
          "class_dict_no_default_raises",       \* exact: class/pydantic emit of a `dict` parameter without default raises TypeError
          "str_default_with_dot_truncated",     \* wild : emit_default_doc + a string default containing a full stop: cut at it when read back from the docstring (function: SyntaxError)
@@ -74,7 +74,8 @@ AsBuiltP(en, cfg, p) ==
 AsBuilt(en, cfg, i) ==
   LET n == Len(i.params)
       per == [k \in 1..n |-> AsBuiltP(en, cfg, i.params[k])]
-      wildNp == "numpydoc_embedded_unparsable" \in en /\ cfg.style = "numpydoc" /\ Embedded(cfg)
+      \* (until the de-indenting repair EVERY embedded NumPy docstring was unreadable; what is left needs a return entry)
+      wildNp == "numpydoc_embedded_unparsable" \in en /\ cfg.style = "numpydoc" /\ Embedded(cfg) /\ i.ret # NoRet
       wildDot == "str_default_with_dot_truncated" \in en /\ Embedded(cfg) /\ cfg.edd /\ \E k \in 1..n : i.params[k].def = "str_dot"
       wildGr == "google_return_mangled" \in en /\ cfg.style = "google" /\ Embedded(cfg) /\ i.ret # NoRet
       dictRaise == "class_dict_no_default_raises" \in en /\ cfg.fmt \in {"class", "pydantic"}
@@ -97,7 +98,7 @@ AsBuilt(en, cfg, i) ==
                \cup (IF dictRaise THEN {"class_dict_no_default_raises"} ELSE {})
   IN [out |-> [raises |-> IF dictRaise THEN "TypeError"
                           ELSE IF retLit THEN "TypeError"
-                          ELSE IF apGn THEN (IF cfg.style = "google" THEN "KeyError" ELSE "TypeError") ELSE "no",
+                          ELSE IF apGn THEN (IF cfg.style = "google" THEN "KeyError" ELSE "StopIteration") ELSE "no",
                wild |-> wildNp \/ wildGr \/ wildDot \/ fnRet, doc |-> i.doc,
                params |-> [k \in 1..n |-> per[k][1]],
                ret |-> ret],
